@@ -105,6 +105,8 @@ def _r33a(chk, repo) -> None:
             )
         elif si is not None:
             chk.fail("R33a", r, "the sorted iterable is not the local list filled under the seen-set test", detail="sorted over kept list")
+        elif isinstance(r.value, ast.Name) and all(o.kind == "expr" and is_fresh_list(o.expr) for o in origins(cfg, r.value, r)):
+            kept_names.add(r.value.id)  # unsorted return already reported; still check how the list is filled
     n_app = 0
     for kept in sorted(kept_names):
         for k, node in mutations_of(dd, kept):
@@ -143,7 +145,8 @@ def _r33a(chk, repo) -> None:
                             rec = True
                 chk.require(fresh and rec, "R33a", node, "the signature of a kept violation is not recorded in the seen set (or the set outlives the call): later duplicates are kept as well", detail="append: kept signature recorded")
     chk.count("R33a.dedupe_append_sites", n_app)
-    chk.floor("R33a.dedupe_append_sites", 1)
+    if kept_names:
+        chk.floor("R33a.dedupe_append_sites", 1)
 
     # ---- the sort key is a source position -----------------------------------
     em = repo.mod(ERRORS)
